@@ -628,6 +628,12 @@ def check_forwarding(ctx: Ctx):
             if callee is None or callee is fi and False:
                 continue
             v = kwarg(c, "num_processes")
+            if v is None:
+                # options collected in a dict and passed with **
+                from ..astutil import call_bindings
+
+                bnd_, _un = call_bindings(view(model, fi), c, callee)
+                v = bnd_.get("num_processes")
             site = f"{fi.qualname}→{callee.qualname}"
             ok = isinstance(v, ast.Name) and v.id == "num_processes"
             ctx.decide(ok, "FORWARD", site, (fi, c), "num_processes=num_processes",
